@@ -50,11 +50,7 @@ class ProofCache():
         self.prop = data['prop']
         self.steps = data['steps']
 
-        if self.thm_name != '':
-            limit = ('thm', self.thm_name)
-        else:
-            limit = None
-        context.set_context(self.theory_name, limit=limit, username=self.username, vars=self.vars)
+        self.set_context()
         state = server.parse_init_state(self.prop)
 
         self.history = []
@@ -72,6 +68,17 @@ class ProofCache():
                 'err_str': str(e),
                 'trace': traceback2.format_exc()
             }
+
+    def set_context(self):
+        """Set the theory and context in which the cached proof lives. Other
+        requests may have replaced them since the cache was created.
+
+        """
+        if self.thm_name != '':
+            limit = ('thm', self.thm_name)
+        else:
+            limit = None
+        context.set_context(self.theory_name, limit=limit, username=self.username, vars=self.vars)
 
     def insert_step(self, index, step):
         self.steps = self.steps[:index] + [step] + self.steps[index:]
@@ -111,6 +118,8 @@ def init_saved_proof():
         start_time = time.perf_counter()
         proof_cache.create_cache(data)
         print("Load: %f" % (time.perf_counter() - start_time))
+    else:
+        proof_cache.set_context()
 
     start_time = time.perf_counter()
     res = {
@@ -153,6 +162,8 @@ def apply_method():
         start_time = time.perf_counter()
         proof_cache.create_cache(data)
         print("Load: %f" % (time.perf_counter() - start_time))
+    else:
+        proof_cache.set_context()
 
     start_time = time.perf_counter()
     state = copy.copy(proof_cache.states[data['index']])
